@@ -29,7 +29,7 @@ func init() {
 }
 
 var (
-	c17Pat = map[string][]int{"maj": {0, 4, 7}, "min": {0, 3, 7}, "dim": {0, 3, 6}, "maj7": {0, 4, 7, 11}, "m7": {0, 3, 7, 10}, "7": {0, 4, 7, 10}, "m7b5": {0, 3, 6, 10}}
+	c17Pat           = map[string][]int{"maj": {0, 4, 7}, "min": {0, 3, 7}, "dim": {0, 3, 6}, "maj7": {0, 4, 7, 11}, "m7": {0, 3, 7, 10}, "7": {0, 4, 7, 10}, "m7b5": {0, 3, 6, 10}}
 	c17MajorTriads   = []string{"maj", "min", "min", "maj", "maj", "min", "dim"}
 	c17MajorSevenths = []string{"maj7", "m7", "m7", "maj7", "7", "m7", "m7b5"}
 )
